@@ -96,9 +96,9 @@ func main() {
 			}
 		}()
 		e.Fn(run, mon.NewRand(uint64(seed)), tier == "thorough")
-		if n := sim.ShadowStats.Scripts.Load() + sim.ShadowStats.Speculated.Load() + sim.ShadowStats.Restarts.Load(); n > 0 {
+		if n := sim.ShadowStats.Scripts.Load() + sim.ShadowStats.Speculated.Load() + sim.ShadowStats.Restarts.Load() + sim.ShadowStats.Migrations.Load(); n > 0 {
 			run.Extra["discarded_branch_activity"] = map[string]int64{"shadow_scripts": sim.ShadowStats.Scripts.Load(), "shadow_tx_accepted": sim.ShadowStats.TxOK.Load(),
-				"shadow_tx_rejected": sim.ShadowStats.TxRejected.Load(), "transactions_first_run_speculatively": sim.ShadowStats.Speculated.Load(), "process_restarts": sim.ShadowStats.Restarts.Load()}
+				"shadow_tx_rejected": sim.ShadowStats.TxRejected.Load(), "transactions_first_run_speculatively": sim.ShadowStats.Speculated.Load(), "process_restarts": sim.ShadowStats.Restarts.Load(), "genesis_round_trips_mid_history": sim.ShadowStats.Migrations.Load()}
 		}
 		return run.Finish()
 	}()
